@@ -5,6 +5,7 @@ import LdkModel.Model.MonGate
 import LdkModel.Model.TxBuilder
 import LdkModel.Model.Closing
 import LdkModel.Model.SendLimit
+import LdkModel.Driver.RaaGateOp
 namespace Ldk.Driver
 open Ldk Ldk.Chan
 
@@ -136,6 +137,9 @@ def chan : Drv where
     | ["bal", x], some s => ret <|
       let n := if x == "a" then s.a else s.b
       (some s, s!"{n.valueToSelf}")
+    -- C05: the generated guard chain of revoke_and_ack on the real channel's atoms (stateless; Driver/RaaGateOp.lean)
+    | ["raag", cp, bits, inb, outb], _ => (st0, raagAnswer cp bits inb outb)
+    | ["hgate", sp, lk, sg, pc, cur, closed], _ => (st0, hgateAnswer sp lk sg pc cur closed)
     | _, _ => (st0, "bad-op")
 
 def parseKind (s : String) : MonGate.Kind :=
